@@ -3,9 +3,10 @@
     EXISTS / IN-select / window / VALUES / INSERT VALUES / multi-row / INSERT SELECT / REPLACE /
     UPDATE / UPDATE tuple / UPDATE FROM / DELETE / UPSERT / RETURNING x3 / CTE x4 / multi-statement)
     with 47 clause contexts (slots), a filler expression whose meaning must survive, and 0..3 call
-    sites [function, argument / time-value form ('now', 'NOW', implicit, other literal, expression),
-    modifiers, case, what separates name and parenthesis, expression nesting incl. inside a string
-    literal / quoted identifier].  MustRewrite(site) transcribes the property text; Replaced(case, i)
+    sites [function, argument / time-value form ('now', 'NOW', implicit, other literal, expression,
+    column), modifiers, case, what separates name and parenthesis, expression nesting incl. inside
+    a string literal / quoted identifier]; two sites in two clauses or side by side in one clause,
+    in either order (one representative per kind of call, deterministic time calls included).  MustRewrite(site) transcribes the property text; Replaced(case, i)
     is the design of the rewriter (pre-filter, parse, walk, recognise) with one switch per mechanism.
     TLC checks Complete (must => replaced), Minimal (replaced => must: ORDER BY random(), strings,
     identifiers, non-'now' time values untouched), Unchanged (nothing to replace => byte-identical),
@@ -30,7 +31,7 @@ TECHNIQUE = "TLA+ grammar + rewriter-design spec, TLC exhaustive with negative c
 SWITCHES = collections.OrderedDict([
     ("PrefilterComplete", "Complete"), ("ImplicitNow", "Complete"), ("FormatOnly", "Complete"), ("SkipOrderBy", "Minimal"),
     ("LeaveStringsIdents", "Minimal"), ("UntouchedIfNoSite", "Unchanged"), ("WalkEverywhere", "Complete"),
-    ("OnePin", "OnePinPerStatement")])
+    ("OnePin", "OnePinPerStatement"), ("SiteIndependent", "Complete")])
 PAR = 4
 
 
